@@ -439,7 +439,7 @@ fn alloc_heavy(rng: &mut Rng, i: usize) -> Prog {
     let f = fams[i % fams.len()];
     let main = match f {
         "list-build-sum" => format!(
-            "type L = | Nil | Cons Int L\nrec let build n acc = if n #Int== 0 then acc else build (n #Int- 1) (Cons n acc)\nin\nrec let sum l acc = match l with\n    | Nil -> acc\n    | Cons x xs -> sum xs (acc #Int+ x)\nin\nsum (build {} Nil) 0",
+            "type L = | Nil | Cons Int L\nrec let build n acc = if n #Int== 0 then acc else build (n #Int- 1) (Cons n acc)\nin\nrec let sum l acc =\n    match l with\n    | Nil -> acc\n    | Cons x xs -> sum xs (acc #Int+ x)\nin\nsum (build {} Nil) 0",
             n
         ),
         "array-append-loop" => format!(
@@ -459,7 +459,7 @@ fn alloc_heavy(rng: &mut Rng, i: usize) -> Prog {
             n
         ),
         _ => format!(
-            "type T = | Leaf | Node T Int T\nrec let build d = if d #Int== 0 then Leaf else Node (build (d #Int- 1)) d (build (d #Int- 1))\nin\nrec let size t = match t with\n    | Leaf -> 0\n    | Node l _ r -> size l #Int+ 1 #Int+ size r\nin\n{{ n = size (build {}), t = build 3 }}",
+            "type T = | Leaf | Node T Int T\nrec let build d = if d #Int== 0 then Leaf else Node (build (d #Int- 1)) d (build (d #Int- 1))\nin\nrec let size t =\n    match t with\n    | Leaf -> 0\n    | Node l _ r -> size l #Int+ 1 #Int+ size r\nin\n{{ n = size (build {}), t = build 3 }}",
             3 + n % 6
         ),
     };
